@@ -408,7 +408,7 @@ def stepCreated (p : Pool) (t : Nat) (tk : PTask) : Pool :=
 
 /-- the worker sees a `CancelledError` at its suspension point -/
 def workerCancelled (p : Pool) (t : Nat) (tk : PTask) : Pool :=
-  let p := (p.logEv (.sawCancel t)).modTask t fun k => { k with sawCancel := true, phase := .wrapUp }
+  let p := (p.logEv (.sawCancel t)).modTask t fun k => { k with sawCancel := true, phase := .wrapUp, nSaw := k.nSaw + 1 }
   if (p.reqOf tk).wspec.swallow then p.afterWorker t none else p.taskCancellation t tk
 
 def stepInWorker (p : Pool) (t : Nat) (tk : PTask) : Pool :=
@@ -462,7 +462,7 @@ def addToGroup : List (String Ã— List Nat) â†’ String â†’ Nat â†’ List (String Ã
   | (n, ids) :: rest, g, id => if n = g then (n, ids ++ [id]) :: rest else (n, ids) :: addToGroup rest g id
 
 def newTask (m : Nat) (isMap : Bool) (arg : ArgD) (ecb ccb : CbSpec) : PTask :=
-  { req := m, arg := arg, endCb := ecb, cancelCb := ccb, nEC := 0, nCC := 0, wasCancelled := false, phase := .created, released := false, isMap := isMap, mapHeld := isMap, fut := .pending,
+  { req := m, arg := arg, endCb := ecb, cancelCb := ccb, nEC := 0, nCC := 0, wasCancelled := false, nSaw := 0, phase := .created, released := false, isMap := isMap, mapHeld := isMap, fut := .pending,
     mustCancel := false, sched := true, outcome := none, pendingExc := none, sawCancel := false,
     unstarted := true, cancelledEarly := false, doneCbs := [] }
 
